@@ -266,6 +266,15 @@ pub fn write_ink_list(list: &InkList) -> serde_json::Value {
 
     jobj.insert("list".to_owned(), serde_json::Value::Object(jlist));
 
+    // An empty list still remembers which list definitions it came from
+    // (LIST_ALL / LIST_INVERT need them); write them as the reference engine does.
+    if list.items.is_empty() {
+        let origin_names = list.get_origin_names();
+        if !origin_names.is_empty() {
+            jobj.insert("origins".to_owned(), json!(origin_names));
+        }
+    }
+
     serde_json::Value::Object(jobj)
 }
 
